@@ -64,6 +64,7 @@ class Unit(as2a.Unit):
             except OSError as e:
                 raise Undecided('extraction: cannot read %s: %s' % (rel, e))
         hpp, cpp, sv = rd('celma/prog_args/handler.hpp'), rd('library/prog_args/handler.cpp'), rd('celma/common/scoped_value.hpp')
+        cpp = re.sub(r'//[^\n]*|/\*.*?\*/', '', cpp, flags=re.S)      # comments do not count as uses
         m_enum = re.search(r'^   enum ReadMode : uint8_t\n   \{\n.*?\n   \};\n', hpp, flags=re.M | re.S)
         m_sf = re.search(r'^template< typename S> class ScopedFlag\n\{\n.*?\n\}; // ScopedFlag< S>\n', sv, flags=re.M | re.S)
         sites = re.findall(r'->assignValue\(\s*((?:[^,()]|\([^()]*\))+),', cpp)
